@@ -113,6 +113,7 @@ structure AbsCore (s : State) (h : Hist) : Prop where
   closures : s.closures = Spec.closures h
   len : s.cells.length = nCtx h
   cells : ∀ c, s.cells[c]? = current h c
+  wires : s.wires = Spec.wires h
 
 /-- memos: same view, cache = value at the last evaluation, dirty = stale -/
 structure AbsMemo (ms : List Memo) (h : Hist) : Prop where
@@ -132,7 +133,7 @@ structure Abs (s : State) (h : Hist) : Prop where
   own : AbsOwn s.owners h
 
 theorem abs_empty : Abs State.empty [] :=
-  ⟨⟨rfl, rfl, rfl, fun c => by simp [State.empty, current]⟩,
+  ⟨⟨rfl, rfl, rfl, fun c => by simp [State.empty, current], rfl⟩,
    ⟨rfl, fun i => by simp [State.empty, memoViews]⟩,
    ⟨rfl, fun o n p hn _ => by simp [State.empty] at hn, fun o ho => by simp [State.empty] at ho⟩⟩
 
@@ -160,6 +161,7 @@ def memoNeutral : Op → Bool
   | .makeMemo _ => false
   | .readMemo _ => false
   | .set _ _ => false
+  | .tick => false
   | _ => true
 
 theorem AbsMemo.neutral {ms : List Memo} {h : Hist} (a : AbsMemo ms h) (op : Op) (hn : memoNeutral op = true) :
@@ -185,14 +187,64 @@ def coreNeutral : Op → Bool
   | .makeMemo _ => true
   | .readMemo _ => true
   | .childOwner _ => true
-  | .tick => true
   | _ => false
 
 theorem AbsCore.neutral {s s' : State} {h : Hist} (a : AbsCore s h) (op : Op) (hn : coreNeutral op = true)
-    (h1 : s'.cells = s.cells) (h2 : s'.views = s.views) (h3 : s'.closures = s.closures) : AbsCore s' (op :: h) := by
+    (h1 : s'.cells = s.cells) (h2 : s'.views = s.views) (h3 : s'.closures = s.closures) (h4 : s'.wires = s.wires) :
+    AbsCore s' (op :: h) := by
   cases op <;> simp [coreNeutral] at hn <;>
     exact ⟨by simpa [Spec.views, h2] using a.views, by simpa [Spec.closures, h3] using a.closures,
-      by simpa [nCtx, h1] using a.len, fun c => by simpa [current, h1] using a.cells c⟩
+      by simpa [nCtx, h1] using a.len, fun c => by simpa [current, h1] using a.cells c,
+      by simpa [Spec.wires, h4] using a.wires⟩
+
+/-! ### wires -/
+
+/-- every wire feeds an existing context -/
+theorem wires_ctx_lt (h : Hist) : ∀ w ∈ Spec.wires h, w.ctx < nCtx h := by
+  induction h with
+  | nil => intro w hw; simp [Spec.wires] at hw
+  | cons op h ih =>
+    intro w hw
+    cases op with
+    | subWired parent x =>
+      simp only [Spec.wires, List.mem_append, List.mem_singleton] at hw
+      simp only [nCtx]
+      rcases hw with hw | rfl
+      · exact Nat.lt_succ_of_lt (ih w hw)
+      · exact Nat.lt_succ_self _
+    | wireSet i l =>
+      simp only [Spec.wires] at hw
+      simp only [nCtx]
+      cases hi : (Spec.wires h)[i]? with
+      | none => rw [hi] at hw; exact ih w hw
+      | some w0 =>
+        rw [hi] at hw
+        rcases List.mem_or_eq_of_mem_set hw with hw | rfl
+        · exact ih w hw
+        · exact ih w0 (List.mem_of_getElem? hi)
+    | tick =>
+      simp only [Spec.wires, List.mem_map] at hw
+      obtain ⟨w0, hw0, rfl⟩ := hw
+      exact ih w0 hw0
+    | newRoot _ => simp only [Spec.wires] at hw; exact Nat.lt_succ_of_lt (ih w hw)
+    | sub _ _ _ => simp only [Spec.wires] at hw; exact Nat.lt_succ_of_lt (ih w hw)
+    | provideRoot _ => simp only [Spec.wires] at hw; exact Nat.lt_succ_of_lt (ih w hw)
+    | provider _ _ _ => simp only [Spec.wires] at hw; exact Nat.lt_succ_of_lt (ih w hw)
+    | _ => simp only [Spec.wires] at hw; exact ih w hw
+
+/-- something is due for `c` only if a wire feeds `c` -/
+theorem pending_some {ws : List Wire} {c : Nat} {l : Locale} (hp : pending ws c = some l) :
+    ∃ w ∈ ws, w.ctx = c ∧ w.val = l ∧ w.val ≠ w.seen := by
+  unfold pending at hp
+  obtain ⟨w, hw, hf⟩ := List.exists_of_findSome?_eq_some hp
+  by_cases hc : w.ctx = c ∧ w.val ≠ w.seen
+  · rw [if_pos hc] at hf
+    exact ⟨w, hw, hc.1, by simpa using hf, hc.2⟩
+  · rw [if_neg hc] at hf; cases hf
+
+theorem due_lt {h : Hist} {c : Nat} {l : Locale} (hd : due h c = some l) : c < nCtx h := by
+  obtain ⟨w, hw, hc, _, _⟩ := pending_some hd
+  rw [← hc]; exact wires_ctx_lt h w hw
 
 
 /-! ### one step -/
@@ -200,7 +252,7 @@ theorem AbsCore.neutral {s s' : State} {h : Hist} (a : AbsCore s h) (op : Op) (h
 theorem write_spec {s : State} {h : Hist} (a : AbsCore s h) (v : Nat) (l : Locale) (tracked : Bool) :
     match s.write v l tracked with
     | some s' => (viewLocale h v).isSome = true ∧ s'.views = s.views ∧ s'.closures = s.closures ∧
-        s'.cells.length = s.cells.length ∧ s'.owners = s.owners ∧
+        s'.cells.length = s.cells.length ∧ s'.owners = s.owners ∧ s'.wires = s.wires ∧
         (∃ c, (Spec.views h)[v]? = some c ∧
           s'.memos = if tracked then markDirty s.views c s.memos else s.memos) ∧
         ∀ c, s'.cells[c]? = if (Spec.views h)[v]? = some c then some l else current h c
@@ -236,7 +288,7 @@ theorem step_refines {s : State} {h : Hist} (a : Abs s h) (op : Op) :
   | newRoot init =>
     refine ⟨by simp [step, obsAt, ac.views], ?_⟩
     simp only [obsAt, step, reduceCtorEq, if_false]
-    refine ⟨⟨by simp [Spec.views, ac.views, ac.len], by simp [Spec.closures, ac.closures], by simp [nCtx, ac.len], ?_⟩,
+    refine ⟨⟨by simp [Spec.views, ac.views, ac.len], by simp [Spec.closures, ac.closures], by simp [nCtx, ac.len], ?_, by simp [Spec.wires, ac.wires]⟩,
       am.neutral _ rfl, ao.neutral _ rfl⟩
     intro c
     simp only [current, getElem?_append_one, ac.len, ac.cells]
@@ -245,7 +297,7 @@ theorem step_refines {s : State} {h : Hist} (a : Abs s h) (op : Op) :
     | none =>
       refine ⟨by simp [step, obsAt, ac.views], ?_⟩
       simp only [obsAt, step, reduceCtorEq, if_false]
-      refine ⟨⟨by simp [Spec.views, ac.views, ac.len], by simp [Spec.closures, ac.closures], by simp [nCtx, ac.len], ?_⟩,
+      refine ⟨⟨by simp [Spec.views, ac.views, ac.len], by simp [Spec.closures, ac.closures], by simp [nCtx, ac.len], ?_, by simp [Spec.wires, ac.wires]⟩,
         am.neutral _ rfl, ao.neutral _ rfl⟩
       intro c
       simp only [current, getElem?_append_one, ac.len, ac.cells]
@@ -261,7 +313,7 @@ theorem step_refines {s : State} {h : Hist} (a : Abs s h) (op : Op) :
         rw [hv] at hr
         refine ⟨by simp [step, obsAt, hr, hv, ac.views], ?_⟩
         simp only [obsAt, hv, Option.isSome_some, if_true, step, hr, Option.map_some, reduceCtorEq, if_false]
-        refine ⟨⟨by simp [Spec.views, ac.views, ac.len], by simp [Spec.closures, ac.closures], by simp [nCtx, ac.len], ?_⟩,
+        refine ⟨⟨by simp [Spec.views, ac.views, ac.len], by simp [Spec.closures, ac.closures], by simp [nCtx, ac.len], ?_, by simp [Spec.wires, ac.wires]⟩,
           am.neutral _ rfl, ao.neutral _ rfl⟩
         intro c
         simp only [current, getElem?_append_one, ac.len, ac.cells]
@@ -286,7 +338,7 @@ theorem step_refines {s : State} {h : Hist} (a : Abs s h) (op : Op) :
       refine ⟨by simp [step, obsAt, ac.views, hlt], ?_⟩
       simp only [obsAt, hlt, if_true, step, ac.views, hv, reduceCtorEq, if_false]
       exact ⟨⟨by simp [Spec.views, hv], by simp [Spec.closures, ac.closures], by simp [nCtx, ac.len],
-        fun c' => by simp [current, ac.cells]⟩, am.neutral _ rfl, ao.neutral _ rfl⟩
+        fun c' => by simp [current, ac.cells], by simp [Spec.wires, ac.wires]⟩, am.neutral _ rfl, ao.neutral _ rfl⟩
   | set v l =>
     have hw := write_spec ac v l true
     cases hwr : s.write v l true with
@@ -296,10 +348,10 @@ theorem step_refines {s : State} {h : Hist} (a : Abs s h) (op : Op) :
       exact ⟨ac, am, ao⟩
     | some s' =>
       rw [hwr] at hw
-      obtain ⟨h1, h2, h3, h4, h5, ⟨c, hc, h6⟩, h7⟩ := hw
+      obtain ⟨h1, h2, h3, h4, h5, h8, ⟨c, hc, h6⟩, h7⟩ := hw
       simp only [step, obsAt, hwr, h1, if_true, reduceCtorEq, if_false, true_and]
       refine ⟨⟨by simp [Spec.views, h2, ac.views], by simp [Spec.closures, h3, ac.closures], by simp [nCtx, h4, ac.len],
-        fun c => by simp [current, h7]⟩, ?_, by rw [h5]; exact ao.neutral _ rfl⟩
+        fun c => by simp [current, h7], by simp [Spec.wires, h8, ac.wires]⟩, ?_, by rw [h5]; exact ao.neutral _ rfl⟩
       rw [h6]
       refine ⟨by simp [markDirty, memoViews, am.len], ?_⟩
       intro i
@@ -318,10 +370,10 @@ theorem step_refines {s : State} {h : Hist} (a : Abs s h) (op : Op) :
       exact ⟨ac, am, ao⟩
     | some s' =>
       rw [hwr] at hw
-      obtain ⟨h1, h2, h3, h4, h5, ⟨c, hc, h6⟩, h7⟩ := hw
+      obtain ⟨h1, h2, h3, h4, h5, h8, ⟨c, hc, h6⟩, h7⟩ := hw
       simp only [step, obsAt, hwr, h1, if_true, reduceCtorEq, if_false, true_and]
       exact ⟨⟨by simp [Spec.views, h2, ac.views], by simp [Spec.closures, h3, ac.closures], by simp [nCtx, h4, ac.len],
-        fun c => by simp [current, h7]⟩, by rw [h6]; exact am.neutral _ rfl, by rw [h5]; exact ao.neutral _ rfl⟩
+        fun c => by simp [current, h7], by simp [Spec.wires, h8, ac.wires]⟩, by rw [h6]; exact am.neutral _ rfl, by rw [h5]; exact ao.neutral _ rfl⟩
   | get v =>
     have hr := ac.read v
     cases hv : viewLocale h v with
@@ -332,7 +384,7 @@ theorem step_refines {s : State} {h : Hist} (a : Abs s h) (op : Op) :
     | some l =>
       rw [hv] at hr
       simp only [step, obsAt, hr, hv, reduceCtorEq, if_false, true_and]
-      exact ⟨ac.neutral _ rfl rfl rfl rfl, am.neutral _ rfl, ao.neutral _ rfl⟩
+      exact ⟨ac.neutral _ rfl rfl rfl rfl rfl, am.neutral _ rfl, ao.neutral _ rfl⟩
   | getUntracked v =>
     have hr := ac.read v
     cases hv : viewLocale h v with
@@ -343,12 +395,12 @@ theorem step_refines {s : State} {h : Hist} (a : Abs s h) (op : Op) :
     | some l =>
       rw [hv] at hr
       simp only [step, obsAt, hr, hv, reduceCtorEq, if_false, true_and]
-      exact ⟨ac.neutral _ rfl rfl rfl rfl, am.neutral _ rfl, ao.neutral _ rfl⟩
+      exact ⟨ac.neutral _ rfl rfl rfl rfl rfl, am.neutral _ rfl, ao.neutral _ rfl⟩
   | makeClosure v =>
     by_cases hlt : v < (Spec.views h).length
     · simp only [step, obsAt, ac.views, hlt, if_true, ac.closures, reduceCtorEq, if_false, true_and]
       exact ⟨⟨by simp [Spec.views], by simp [Spec.closures], by simp [nCtx, ac.len],
-        fun c => by simp [current, ac.cells]⟩, am.neutral _ rfl, ao.neutral _ rfl⟩
+        fun c => by simp [current, ac.cells], by simp [Spec.wires, ac.wires]⟩, am.neutral _ rfl, ao.neutral _ rfl⟩
     · simp only [step, obsAt, ac.views, hlt, if_false, if_true, true_and]
       exact ⟨ac, am, ao⟩
   | callClosure i =>
@@ -366,12 +418,12 @@ theorem step_refines {s : State} {h : Hist} (a : Abs s h) (op : Op) :
       | some l =>
         rw [hv] at hr
         simp only [step, obsAt, ac.closures, hi, hr, hv, reduceCtorEq, if_false, true_and]
-        exact ⟨ac.neutral _ rfl rfl rfl rfl, am.neutral _ rfl, ao.neutral _ rfl⟩
+        exact ⟨ac.neutral _ rfl rfl rfl rfl rfl, am.neutral _ rfl, ao.neutral _ rfl⟩
   | makeMemo v =>
     by_cases hlt : v < (Spec.views h).length
     · have hlt' : v < s.views.length := by rw [ac.views]; exact hlt
       simp only [step, obsAt, hlt', hlt, if_true, am.len, reduceCtorEq, if_false, true_and]
-      refine ⟨ac.neutral _ rfl rfl rfl rfl, ⟨by simp [memoViews, am.len], ?_⟩, ao.neutral _ rfl⟩
+      refine ⟨ac.neutral _ rfl rfl rfl rfl rfl, ⟨by simp [memoViews, am.len], ?_⟩, ao.neutral _ rfl⟩
       intro i
       simp only [memoViews, memoCache, memoStale, getElem?_append_one, am.len, am.get i]
       by_cases e : i = (memoViews h).length <;> simp [e]
@@ -399,7 +451,7 @@ theorem step_refines {s : State} {h : Hist} (a : Abs s h) (op : Op) :
         | some l =>
           rw [hv] at hr
           simp only [step, obsAt, memoRead, hg, hm, hst, if_true, hr, hv, reduceCtorEq, if_false, true_and]
-          refine ⟨ac.neutral _ rfl rfl rfl rfl, ⟨by simp [memoViews, am.len], ?_⟩, ao.neutral _ rfl⟩
+          refine ⟨ac.neutral _ rfl rfl rfl rfl rfl, ⟨by simp [memoViews, am.len], ?_⟩, ao.neutral _ rfl⟩
           intro j
           simp only [memoViews, memoCache, memoStale, memoCtx, List.getElem?_set]
           by_cases e : i = j
@@ -418,7 +470,7 @@ theorem step_refines {s : State} {h : Hist} (a : Abs s h) (op : Op) :
           exact ⟨ac, am, ao⟩
         | some l =>
           simp only [step, obsAt, memoRead, hg, hm, hst, hc, Bool.false_eq_true, if_false, reduceCtorEq, true_and]
-          refine ⟨ac.neutral _ rfl rfl rfl rfl, ⟨by simp [memoViews, am.len], ?_⟩, ao.neutral _ rfl⟩
+          refine ⟨ac.neutral _ rfl rfl rfl rfl rfl, ⟨by simp [memoViews, am.len], ?_⟩, ao.neutral _ rfl⟩
           intro j
           simp only [memoViews, memoCache, memoStale]
           by_cases e : i = j
@@ -429,7 +481,7 @@ theorem step_refines {s : State} {h : Hist} (a : Abs s h) (op : Op) :
     simp only [obsAt, step, reduceCtorEq, if_false]
     have hp : ∀ p, ({ parent := none, provided := some s.cells.length } : OwnerNode).parent = some p → p < s.owners.length := by
       intro p hp; cases hp
-    refine ⟨⟨by simp [Spec.views, ac.views, ac.len], by simp [Spec.closures, ac.closures], by simp [nCtx, ac.len], ?_⟩,
+    refine ⟨⟨by simp [Spec.views, ac.views, ac.len], by simp [Spec.closures, ac.closures], by simp [nCtx, ac.len], ?_, by simp [Spec.wires, ac.wires]⟩,
       am.neutral _ rfl, ⟨by simp [nOwners, ao.len], wf_append ao.wf _ hp, ?_⟩⟩
     · intro c
       simp only [current, getElem?_append_one, ac.len, ac.cells]
@@ -449,7 +501,7 @@ theorem step_refines {s : State} {h : Hist} (a : Abs s h) (op : Op) :
       simp only [step, obsAt, hlt, if_true, ao.len, reduceCtorEq, if_false, true_and]
       have hp : ∀ q, ({ parent := some p, provided := none } : OwnerNode).parent = some q → q < s.owners.length := by
         intro q hq; simp at hq; omega
-      refine ⟨ac.neutral _ rfl rfl rfl rfl, am.neutral _ rfl, ⟨by simp [nOwners, ao.len], wf_append ao.wf _ hp, ?_⟩⟩
+      refine ⟨ac.neutral _ rfl rfl rfl rfl rfl, am.neutral _ rfl, ⟨by simp [nOwners, ao.len], wf_append ao.wf _ hp, ?_⟩⟩
       intro o ho
       simp only [List.length_append, List.length_singleton] at ho
       by_cases e : o = s.owners.length
@@ -469,7 +521,7 @@ theorem step_refines {s : State} {h : Hist} (a : Abs s h) (op : Op) :
       simp only [step, obsAt, hlt, if_true, ao.len, ac.views, ac.len, reduceCtorEq, if_false, true_and]
       have hp : ∀ q, ({ parent := some p, provided := some (nCtx h) } : OwnerNode).parent = some q → q < s.owners.length := by
         intro q hq; simp at hq; omega
-      refine ⟨⟨by simp [Spec.views], by simp [Spec.closures, ac.closures], by simp [nCtx, ac.len], ?_⟩,
+      refine ⟨⟨by simp [Spec.views], by simp [Spec.closures, ac.closures], by simp [nCtx, ac.len], ?_, by simp [Spec.wires, ac.wires]⟩,
         am.neutral _ rfl, ⟨by simp [nOwners, ao.len], wf_append ao.wf _ hp, ?_⟩⟩
       · intro c
         simp only [current, getElem?_append_one, ac.len, State.lookup, ao.lookup p hlt']
@@ -506,17 +558,72 @@ theorem step_refines {s : State} {h : Hist} (a : Abs s h) (op : Op) :
         rw [hvis] at hl
         simp only [step, obsAt, hlt, hlt', if_true, hl, hvis, reduceCtorEq, if_false, true_and]
         exact ⟨⟨by simp [Spec.views, hvis, ac.views], by simp [Spec.closures, ac.closures], by simp [nCtx, ac.len],
-          fun c => by simp [current, ac.cells]⟩, am.neutral _ rfl, ao.neutral _ rfl⟩
+          fun c => by simp [current, ac.cells], by simp [Spec.wires, ac.wires]⟩, am.neutral _ rfl, ao.neutral _ rfl⟩
       | some c =>
         rw [hvis] at hl
         simp only [step, obsAt, hlt, hlt', if_true, hl, hvis, ac.views, reduceCtorEq, if_false, true_and]
         exact ⟨⟨by simp [Spec.views, hvis], by simp [Spec.closures, ac.closures], by simp [nCtx, ac.len],
-          fun c => by simp [current, ac.cells]⟩, am.neutral _ rfl, ao.neutral _ rfl⟩
+          fun c => by simp [current, ac.cells], by simp [Spec.wires, ac.wires]⟩, am.neutral _ rfl, ao.neutral _ rfl⟩
     · have hlt' : ¬ p < s.owners.length := by rw [ao.len]; exact hlt
       simp only [step, obsAt, hlt, hlt', if_false, if_true, true_and]
       exact ⟨ac, am, ao⟩
   | tick =>
     simp only [step, obsAt, reduceCtorEq, if_false, true_and]
-    exact ⟨ac.neutral _ rfl rfl rfl rfl, am.neutral _ rfl, ao.neutral _ rfl⟩
+    refine ⟨⟨by simp [State.deliver, Spec.views, ac.views], by simp [State.deliver, Spec.closures, ac.closures],
+      by simp [State.deliver, nCtx, ac.len], ?_, by simp [State.deliver, Spec.wires, ac.wires]⟩, ⟨?_, ?_⟩,
+      ao.neutral _ rfl⟩
+    · intro c
+      simp only [State.deliver, current, due, List.getElem?_mapIdx, ac.cells, ← ac.wires]
+      cases hp : pending s.wires c with
+      | none => simp
+      | some l =>
+        have hlt : c < nCtx h := due_lt (by rw [due, ← ac.wires]; exact hp)
+        obtain ⟨x, hx⟩ : ∃ x, current h c = some x := by
+          rw [← ac.cells c, ← ac.len] at *
+          exact ⟨s.cells[c], List.getElem?_eq_getElem hlt⟩
+        simp [hx]
+    · simp [State.deliver, memoViews, am.len]
+    · intro i
+      have hd : due h = pending s.wires := by funext c; simp [due, ac.wires]
+      simp only [State.deliver, List.getElem?_map, am.get i, memoViews, memoCache, memoStale, memoCtx, hd]
+      obtain hm | ⟨mv, hm⟩ : (memoViews h)[i]? = none ∨ ∃ mv, (memoViews h)[i]? = some mv := by
+        cases (memoViews h)[i]? <;> simp
+      · simp [hm]
+      · simp only [hm, Option.map_some, ac.views]
+        cases ((Spec.views h)[mv]?.bind (pending s.wires)).isSome <;> simp
+  | subWired parent w =>
+    have hcore : AbsCore { s with cells := s.cells ++ [w], views := s.views ++ [s.cells.length], wires := s.wires ++ [{ ctx := s.cells.length, val := w, seen := w }] }
+        (.subWired parent w :: h) :=
+      ⟨by simp [Spec.views, ac.views, ac.len], by simp [Spec.closures, ac.closures], by simp [nCtx, ac.len],
+        fun c => by simp only [current, getElem?_append_one, ac.len, ac.cells], by simp [Spec.wires, ac.wires, ac.len]⟩
+    cases parent with
+    | none =>
+      refine ⟨by simp [step, obsAt, ac.views, ac.wires], ?_⟩
+      simp only [obsAt, step, reduceCtorEq, if_false, if_true]
+      exact ⟨hcore, am.neutral _ rfl, ao.neutral _ rfl⟩
+    | some pv =>
+      have hr := ac.read pv
+      cases hv : viewLocale h pv with
+      | none =>
+        rw [hv] at hr
+        simp only [step, obsAt, hr, hv, Option.isSome_none, Bool.false_eq_true, if_false, if_true, true_and]
+        exact ⟨ac, am, ao⟩
+      | some pl =>
+        rw [hv] at hr
+        refine ⟨by simp [step, obsAt, hr, hv, ac.views, ac.wires], ?_⟩
+        simp only [obsAt, hv, Option.isSome_some, if_true, step, hr, reduceCtorEq, if_false]
+        exact ⟨hcore, am.neutral _ rfl, ao.neutral _ rfl⟩
+  | wireSet i l =>
+    cases hi : (Spec.wires h)[i]? with
+    | none =>
+      have hlt : ¬ i < (Spec.wires h).length := by
+        intro hlt; simp [List.getElem?_eq_getElem hlt] at hi
+      simp only [step, obsAt, ac.wires, hi, hlt, if_false, if_true, true_and]
+      exact ⟨ac, am, ao⟩
+    | some w =>
+      have hlt : i < (Spec.wires h).length := (List.getElem?_eq_some_iff.mp hi).1
+      simp only [step, obsAt, ac.wires, hi, hlt, if_true, reduceCtorEq, if_false, true_and]
+      exact ⟨⟨by simp [Spec.views, ac.views], by simp [Spec.closures, ac.closures], by simp [nCtx, ac.len],
+        fun c => by simp [current, ac.cells], by simp [Spec.wires, hi]⟩, am.neutral _ rfl, ao.neutral _ rfl⟩
 
 end I18nVerif.Context
